@@ -183,6 +183,8 @@ pub enum Ev {
     Oversleep,
     /// `side`'s application calls set_keep_alive(Some(300 ms)) now
     SetKeepAlive { side: usize },
+    /// `side`'s application calls set_keep_alive(None) now (keep-alive was on)
+    ClearKeepAlive { side: usize },
 }
 
 /// 2^31 ms + 1 s in microseconds
@@ -243,6 +245,7 @@ pub struct Tcp2 {
     pub keep_emitted: bool,
     pub cached_deadline: Option<i64>,
     pub ka_set: [bool; 2],
+    pub ka_cleared: [bool; 2],
 }
 
 pub const PORT_A: u16 = 49152;
@@ -732,6 +735,7 @@ impl Harness for Tcp2 {
             keep_emitted: false,
             cached_deadline: None,
             ka_set: [false, false],
+            ka_cleared: [false, false],
         };
         if cfg.prefix != 0 {
             t.first_connection(cfg.prefix);
@@ -828,6 +832,9 @@ impl Harness for Tcp2 {
                 if !self.ka_set[side] && self.ends[side].state() != State::Closed {
                     v.push((Ev::SetKeepAlive { side }, 1));
                 }
+                if !self.ka_cleared[side] && (self.ka_set[side] || self.cfg.keep_alive_ms.is_some()) && self.ends[side].state() != State::Closed {
+                    v.push((Ev::ClearKeepAlive { side }, 1));
+                }
             }
         }
         if self.cfg.allow_stall {
@@ -900,6 +907,10 @@ impl Harness for Tcp2 {
                 if let Some(d) = self.cached_deadline {
                     self.now = d;
                 }
+            }
+            Ev::ClearKeepAlive { side } => {
+                self.ka_cleared[side] = true;
+                self.ends[side].sock().set_keep_alive(None);
             }
             Ev::SetKeepAlive { side } => {
                 self.ka_set[side] = true;
@@ -1135,6 +1146,7 @@ pub fn configs(tier: Tier) -> Vec<(Tcp2Cfg, u32)> {
     // an MSS of 40 leave a one-octet segment as the unacknowledged tail
     let setka = Tcp2Cfg { allow_set_keepalive: true, len: [41, 0], allow_stall: false, ..b("set-keepalive-midway-len41") };
     let setka2 = Tcp2Cfg { allow_set_keepalive: true, len: [30, 11], chunk: 10, nagle: false, ..b("set-keepalive-midway-bidir") };
+    let clrka = Tcp2Cfg { allow_set_keepalive: true, keep_alive_ms: Some(300), len: [30, 0], allow_stall: false, ..b("keepalive-300ms-cleared-midway") };
     // devices that compute the TCP checksum on transmit; the stack must still verify on receive
     let offl = Tcp2Cfg { tx_offload_tcp: true, allow_corrupt: true, len: [50, 0], ..b("corrupt-tx-offload") };
     let offl_eth = Tcp2Cfg { tx_offload_tcp: true, allow_corrupt: true, eth: true, len: [47, 13], chunk: 9, nagle: false, allow_stall: false, ..b("corrupt-tx-offload-eth") };
@@ -1163,6 +1175,7 @@ pub fn configs(tier: Tier) -> Vec<(Tcp2Cfg, u32)> {
         Tier::Quick => {
             v.push((twosock, 3));
             v.push((twosock6, 3));
+            v.push((clrka, 2));
             v.push((setka, 3));
             v.push((setka2, 2));
             v.push((offl, 2));
@@ -1203,6 +1216,7 @@ pub fn configs(tier: Tier) -> Vec<(Tcp2Cfg, u32)> {
         Tier::Thorough => {
             v.push((twosock, 4));
             v.push((twosock6, 4));
+            v.push((clrka, 3));
             v.push((setka, 4));
             v.push((setka2, 3));
             v.push((offl, 3));
